@@ -1,5 +1,5 @@
 (* C14 - grammar objects are independent of each other and of their own past. *)
-From YV Require Import Prelude Generated GeneratedChecks Api.
+From YV Require Import Prelude Generated GeneratedChecks Api Faults.
 
 Theorem C14_objects_independent : forall kps os k,
   let '(os', rs) := mrun os kps in
@@ -13,3 +13,15 @@ Theorem C14_error_state : forall ps o,
   length rs = length ps /\ last_err o' = last_failure (last_err o) (combine ps rs).
 Proof. exact error_state_contract. Qed.
 Print Assumptions C14_error_state.
+
+(* "after all objects and trees are freed the library holds no memory", for the
+   working storage of a parse: a parse that is refused (invalid token code,
+   undefined grammar) or interrupted leaves none of it acquired - the protocol
+   of yaep_parse regenerated from the source passes the check of all raising points. *)
+Theorem C14_parse_leaves_no_working_storage : forall raising_point : option nat,
+  held (snd (exec parse_prologue parse_handler parse_body parse_flags_volatile raising_point)) = nil.
+Proof.
+  intros fa. pose proof (protocol_ok_all _ _ _ _ parse_protocol_ok fa) as H. unfold clean in H.
+  destruct (held _); [reflexivity | discriminate].
+Qed.
+Print Assumptions C14_parse_leaves_no_working_storage.
